@@ -106,8 +106,10 @@ func genC06(r *Rng, tier string, idx int) *Plan {
 		}
 		return Op{Kind: "setuser", Args: a}
 	}
+	made := map[int]Op{}
 	for i := 0; i < nusers; i++ {
-		p.Ops = append(p.Ops, mkUser(i))
+		made[i] = mkUser(i)
+		p.Ops = append(p.Ops, made[i])
 	}
 	if idx%4 == 3 {
 		// rule edits racing in-flight commands: every following (edit, command) pair runs concurrently,
@@ -145,10 +147,29 @@ func genC06(r *Rng, tier string, idx int) *Plan {
 				// edit an EXISTING user while one of its sessions has a command in flight
 				// (only on/off: how other tokens combine with an existing user's rules is incremental and not modelled)
 				e := Op{Kind: "toggle", Args: []string{"ACL", "SETUSER", fmt.Sprintf("u%d", r.Intn(next)), Pick(r, []string{"off", "off", "on"})}}
+				if u, ok := made[r.Intn(next)]; ok && r.Chance(0.4) {
+					// the user's own rule list applied again (an idempotent provisioning job): the rules before and after
+					// are the same, so a command they deny stays denied at every instant of the update
+					e = Op{Kind: "reprov", Args: u.Args}
+					// ... and the racing command is one that list excludes, if it excludes any
+					for _, t := range u.Args[3:] {
+						if len(t) > 1 && t[0] == '-' && t[1] != '@' && t[1] != '&' {
+							if sp := specByName[strings.ToUpper(t[1:])]; sp != nil && r.Chance(0.8) {
+								p.Ops = append(p.Ops, e, Op{C: c, Args: sp.Gen(r, g)})
+								e.Kind = "done"
+								break
+							}
+						}
+					}
+					if e.Kind == "done" {
+						break
+					}
+				}
 				p.Ops = append(p.Ops, e, Op{C: c, Args: g.Cmd(r)})
 				break
 			}
-			p.Ops = append(p.Ops, mkUser(next))
+			made[next] = mkUser(next)
+			p.Ops = append(p.Ops, made[next])
 			p.Ops = append(p.Ops, Op{Kind: "auth", C: c, Args: []string{"AUTH", fmt.Sprintf("u%d", next), fmt.Sprintf("pw%d", next)}})
 			next++
 		case x < 93:
@@ -389,6 +410,7 @@ func runC06(t *testing.T, p *Plan) *Outcome {
 	defer os.RemoveAll(root)
 	br := RunBubble(t, func() {
 		s := NewSim()
+		s.logOn = p.Profile == "race"
 		s.install()
 		defer s.uninstall()
 		if p.Profile == "race" {
@@ -511,7 +533,7 @@ func runC06(t *testing.T, p *Plan) *Outcome {
 				}
 				continue
 			}
-			if p.Profile == "race" && (op.Kind == "toggle" || op.Kind == "deluser") && i+1 < len(p.Ops) && p.Ops[i+1].Kind == "" && len(op.Args) >= 4-ifi(op.Kind == "deluser") {
+			if p.Profile == "race" && (op.Kind == "toggle" || op.Kind == "deluser" || op.Kind == "reprov") && i+1 < len(p.Ops) && p.Ops[i+1].Kind == "" && len(op.Args) >= 4-ifi(op.Kind == "deluser") {
 				// ---- concurrent pair
 				nx := p.Ops[i+1]
 				c := nx.C % nconn
@@ -531,11 +553,18 @@ func runC06(t *testing.T, p *Plan) *Outcome {
 					return users[u.name].decide(nx.Args, cats)
 				}
 				v1, _ := decide()
-				if op.Kind == "toggle" {
+				switch op.Kind {
+				case "toggle":
 					if u := users[op.Args[2]]; u != nil {
 						u.enabled = op.Args[3] == "on"
 					}
-				} else {
+				case "reprov":
+					if users[op.Args[2]] == nil {
+						continue // the user was deleted meanwhile: this would create it, not re-apply its rules
+					}
+					// (an on/off edit made since the creation is overwritten by the list's own on/off token)
+					users[op.Args[2]].enabled = parseC06User(op.Args).enabled
+				default:
 					delete(users, op.Args[2])
 				}
 				v2, why2 := decide()
@@ -544,6 +573,34 @@ func runC06(t *testing.T, p *Plan) *Outcome {
 				cdone, adone := false, false
 				admin.Start(op.Args, func(r Result) { adone = true })
 				conns[c].Start(nx.Args, func(r Result) { cres, cdone = r, true })
+				// In half of the re-provisioning races the schedule is directed at the window that matters: the
+				// command is taken into its authorisation (up to one of the points between two rule groups), then
+				// the update runs up to a dice-chosen token, and only then does the rest follow under the dice.
+				wantCmdAt, wantTokens := "", 0
+				if op.Kind == "reprov" && dice.Next(4) != 0 {
+					// stop the update right after one of its "reset" tokens (the restriction that follows it is not
+					// applied yet), with the command waiting in front of the rule group that token belongs to
+					type cand struct {
+						at     string
+						tokens int
+					}
+					var cands []cand
+					for j, t := range op.Args[2:] {
+						switch strings.ToLower(t) {
+						case "allcategories":
+							cands = append(cands, cand{"acl.authorize.categories", j + 1})
+						case "allcommands":
+							cands = append(cands, cand{"acl.authorize.commands", j + 1})
+						case "allkeys", "allchannels":
+							cands = append(cands, cand{"acl.authorize.keys", j + 1})
+						}
+					}
+					if len(cands) > 0 {
+						pick := cands[dice.Next(len(cands))]
+						wantCmdAt, wantTokens = pick.at, pick.tokens
+					}
+				}
+				tokens := 0
 				for st := 0; st < 4000 && !(cdone && adone); st++ {
 					parked := s.ParkedTasks()
 					if len(parked) == 0 {
@@ -552,6 +609,28 @@ func runC06(t *testing.T, p *Plan) *Outcome {
 							break
 						}
 						continue
+					}
+					if wantCmdAt != "" {
+						var cmdT, updT *Task
+						for _, x := range parked {
+							if strings.HasSuffix(x.Name, conns[c].Name) || strings.Contains(x.Name, ":"+conns[c].Name+":") {
+								cmdT = x
+							} else if x.Site == "acl.update.token" || strings.HasSuffix(x.Name, admin.Name) || strings.Contains(x.Name, ":"+admin.Name+":") {
+								updT = x
+							}
+						}
+						switch {
+						case cmdT != nil && cmdT.Site != wantCmdAt && tokens == 0 && !strings.HasPrefix(cmdT.Site, "cmd."):
+							s.Release(cmdT)
+							continue
+						case updT != nil && tokens < wantTokens:
+							if updT.Site == "acl.update.token" {
+								tokens++
+							}
+							s.Release(updT)
+							continue
+						}
+						wantCmdAt = ""
 					}
 					tk := parked[dice.Next(len(parked))]
 					s.noteChoice(len(parked), tk.Site)
@@ -740,6 +819,7 @@ func runC06(t *testing.T, p *Plan) *Outcome {
 			}
 		}
 		o.Stats = s.Stats
+		o.Log = s.Log
 	})
 	if br.panicVal != nil && o.Sig == "" {
 		o.Sig = "C06/panic/" + topRepoFrame(br.stack)
